@@ -9,7 +9,9 @@ CFG = {'assumptions': ['f64 inputs cross the boundary as bit patterns (non-finit
                  'naming a defective ring (relations between non-simple rings are not well defined)'],
  'count': {'quick': 10000, 'thorough': 400000},
  'lean_files': ['GeoModel/Validation.lean', 'GeoModel/ValidationSpec.lean', 'GeoModel/Valid.lean',
-                'GeoModel/RelateSpec.lean', 'GeoModel/Ops/C14.lean'],
+                'GeoModel/RelateSpec.lean', 'GeoModel/Ops/C14.lean',
+                'GeoProofs/Lemmas/C14PGeom.lean', 'GeoProofs/Lemmas/C14PRing.lean',
+                'GeoProofs/Lemmas/C14PPairs.lean'],
  'rule': 'a quarter valid shapes of all types from the shared generators (two representations), the rest '
          'malformed-leaning: valid polygons with one ring mutated (spike, over/undershoot along an edge, vertex '
          'revisit, consecutive repeat, vertex swap = bow-tie, collinear vertex, moved vertex, NaN/inf/-inf, '
@@ -53,8 +55,28 @@ MANIFEST = {'note': 'Trusted: Lean 4.33 kernel (axioms propext, Classical.choice
          '3-segment ring), flat_ring_has_self_intersection and flat_ring_polygon_invalid (after the fix every '
          'ring of three distinct collinear points is rejected, for every oracle), chained_pair_flagged_iff, '
          'pairBad_unchained, selfIntersection_iff_pair. Other types against the specification: '
-         'lineString_tooFew_iff_spec, lineString_valid_iff_spec, triangle_valid_iff_spec. NOT proved: hasSelfIntersection = false <-> ringSimple '
-         '(exercised by the correspondence on every generated ring instead). The correspondence runs is_valid, check_validation and '
+         'lineString_tooFew_iff_spec, lineString_valid_iff_spec, triangle_valid_iff_spec. '
+         'The loop against the specification: selfIntersection_iff - on a closed ring that keeps at least 4 '
+         'coordinates after removing consecutive repeats (3-segment rings, the wrap-around pair and repeated '
+         'coordinates included) hasSelfIntersection = false <-> ringSimple; ringSimple_not_reported (that '
+         'direction with no hypothesis); selfIntersection_dedup (the loop answers the same on the ring and on '
+         'the deduplicated ring); per-pair classes: adjacent_pair_agrees (consecutive segments: adjacentOk = '
+         'not flagged, either operand order), chained_pair_flagged_iff_common_point and '
+         'adjacentOk_iff_single_common_point (both sides in terms of the point-set segment SegMem), '
+         'shared_end_pair_flagged (where a ring revisiting a vertex is caught although the coordinate '
+         'comparison skips the offending pair); ringErrs_nil_iff_ringSimple (per-ring pass empty <-> ring simple); '
+         'error soundness selfInt_sound (SelfIntersection names a ring with ringSimple = false, no hypothesis). '
+         'Ring-versus-ring clauses with relate = the DE-9IM specification (from the shape of relateParts alone): '
+         'boundary_cells_never_area (a cell with a boundary row/column is never 2) hence boundaries_meet_in_points_iff '
+         '(dim BB <= 0 <-> BB != 1, the line clause is exact); ringPairErrs_nil_iff_relateSpec (the pass unfolded to '
+         'relateParts cells); holePair_no_error_of_spec / polyValidRings_no_holePair_errors (a polygon satisfying '
+         'polyValidRings draws no hole-versus-hole error); holePair_iff_partial (both directions given II of the two '
+         'holes is F or 2); error soundness onArea_sound and onLine_holes_sound against the specification (incl. that '
+         'the second hole is non-empty: an empty ring yields F in every non-exterior column). '
+         'NOT proved: the shell-versus-hole clauses against polyValidRings - the code relates the shell with the hole as a '
+         'LineString, the specification relates two polygons; their agreement rests on the adequacy of the DE-9IM '
+         'specification (S1) '
+         '(exercised by the correspondence instead). The correspondence runs is_valid, check_validation and '
          'validation_errors of the real code (concrete type and through the Geometry enum) against the model, '
          'and judges the implementation\'s answers against an independent specification (ringSimple + the '
          'DE-9IM specification): no false accept, no false reject, errors non-empty iff not valid, every '
